@@ -1,5 +1,7 @@
 (* C03 - No-op and cut-off: actions re-run only when their inputs changed.  Proved on the engine model
    (Model/Engine.v, cache off) for all well-formed repositories, stores and edits. *)
+(* Proof.Engine_Gen: the record layout / needsBuilding order / cache-key parts regenerated from the source *)
+From PlzV Require Import Proof.Engine_Gen.
 From PlzV Require Import Base.Harness Model.Engine Proof.Engine Proof.C03.
 
 Definition C03_statement : Prop :=
